@@ -159,7 +159,32 @@ fn exec_unit(input: &str, out: &mut CaseOut) {
             Err(e) => out.fail("zinc_unwritable", format!("{x:?} {}: {e}", u.symbol())),
         }
         match serde_json::to_string(&v) {
-            Ok(j) => check_number_back("json", x, u, serde_json::from_str::<Value>(&j).map_err(|e| e.to_string()), &j, out),
+            Ok(j) => {
+                check_number_back("json", x, u, serde_json::from_str::<Value>(&j).map_err(|e| e.to_string()), &j, out);
+                // the other ways the same document reaches the decoder: bytes, a reader (nothing to borrow from), the
+                // serde_json tree (members in key order: `_kind`, `unit`, `val`), and the same text with the unit spelled
+                // with JSON escapes (`\/`, `\uXXXX` for the first character)
+                check_number_back("json_slice", x, u, serde_json::from_slice::<Value>(j.as_bytes()).map_err(|e| e.to_string()), &j, out);
+                check_number_back("json_reader", x, u, serde_json::from_reader::<_, Value>(std::io::Cursor::new(j.as_bytes())).map_err(|e| e.to_string()), &j, out);
+                match serde_json::to_value(&v) {
+                    Ok(tree) => check_number_back("json_tree", x, u, serde_json::from_value::<Value>(tree).map_err(|e| e.to_string()), &j, out),
+                    Err(e) => out.fail("json_unwritable", format!("to_value {x:?} {}: {e}", u.symbol())),
+                }
+                let sym = u.symbol();
+                if let Some(first) = sym.chars().next() {
+                    let mut esc = String::new();
+                    let mut buf = [0u16; 2];
+                    for unit in first.encode_utf16(&mut buf) {
+                        esc.push_str(&format!("\\u{:04x}", unit));
+                    }
+                    esc.push_str(&sym[first.len_utf8()..].replace('/', "\\/"));
+                    let quoted = format!("\"{}\"", sym);
+                    if j.contains(&quoted) {
+                        let j2 = j.replacen(&quoted, &format!("\"{esc}\""), 1);
+                        check_number_back("json_escaped", x, u, serde_json::from_str::<Value>(&j2).map_err(|e| e.to_string()), &j2, out);
+                    }
+                }
+            }
             Err(e) => out.fail("json_unwritable", format!("{x:?} {}: {e}", u.symbol())),
         }
     }
